@@ -16,6 +16,7 @@ from . import engine as E
 PLANS = ["NoGC", "SemiSpace", "GenCopy", "GenImmix", "MarkSweep", "PageProtect", "Immix", "MarkCompact",
          "Compressor", "StickyImmix", "ConcurrentImmix"]
 MB = 1 << 20
+C09_SLACK = 262144        # bytes a cycle may exceed the floor of the first cycles by (64 pages: retained TLAB / copy blocks)
 ANCHOR_KEY = 255          # vm root slot that keeps one Default object alive (F-H: MarkCompact)
 
 
@@ -503,6 +504,138 @@ def _oracle_snap(sh, res):
     return None
 
 
+def oracle_allocs(trace):
+    """Independent C02 + C03 oracle on the printed alloc results: alignment, size, zeroing, in-MMTk,
+    mapped space, and no intersection with any allocation since the last pause nor with any object of
+    the last snapshot that is still reachable. Returns [(pair index, key, what)]."""
+    out, sh = [], Shadow()
+    amap, refoff, gcs, fresh, snap = {}, 8, 0, [], {}
+    strip = lambda s: s.rstrip("0123456789")
+    for idx, (op, res) in enumerate(trace.pairs):
+        t, r = op.split(), res.split()
+        if not r:
+            continue
+        kv = dict(x.split("=", 1) for x in r if "=" in x)
+        if "gcs" in kv and kv["gcs"].isdigit() and int(kv["gcs"]) != gcs:
+            gcs, fresh, snap = int(kv["gcs"]), [], {}
+        k = t[0]
+        if k == "constraints":
+            refoff = int(kv.get("refoff", 8))
+        elif k == "allocmap":
+            amap = {x.split("=")[0]: strip(x.rsplit("@", 1)[1]) for x in r[1:]}
+        elif k in ("alloc", "alloco"):
+            if r[0] == "null":
+                out.append((idx, "gc:oom" if "oom" in kv else "gc:null-no-oom", res))
+                continue
+            if not r[0].startswith("a="):
+                continue
+            a, sz, nf, payload, align, offset = int(kv["a"], 16), int(kv["sz"]), int(t[3]), int(t[4]), int(t[5]), int(t[6])
+            want = max(32, (refoff + 24 + 8 * nf + payload + 7) // 8 * 8)
+            if (a + offset) % align:
+                out.append((idx, "gc:misaligned", res))
+            elif sz != want:
+                out.append((idx, "gc:size", res))
+            elif kv["inmmtk"] != "1":
+                out.append((idx, "gc:not-in-mmtk", res))
+            elif kv["zero"] != "1":
+                out.append((idx, "gc:not-zeroed", res))
+            elif strip(kv["space"]) != amap.get(t[7]):
+                out.append((idx, "gc:wrong-space", res))
+            else:
+                hit = next((y for y in fresh if not (a + sz <= y[0] or y[0] + y[1] <= a)), None)
+                if hit:
+                    out.append((idx, "gc:overlap-fresh", f"{res} vs id={hit[2]}"))
+                else:
+                    cands = [i for i, (s0, z0) in snap.items() if not (a + sz <= s0 or s0 + z0 <= a)]
+                    live = [i for i in cands if i in sh.reach()] if cands else []
+                    if live:
+                        out.append((idx, "gc:overlap-live", f"{res} vs id={live[0]}"))
+            fresh.append((a, sz, int(t[2])))
+            sh.apply(t, sz)
+        elif k in ("root", "vmroot", "write", "copyrange", "destroy", "mkref"):
+            if r[0] == "ok":
+                sh.apply(t)
+        elif k == "snap" and r[0] == "snap":
+            snap = {}
+            for e in (kv.get("objs", "").split(";") if kv.get("objs") else []):
+                f = e.split(":")
+                snap[int(f[0])] = (int(f[1], 16) - refoff, int(f[2]))
+            spans = sorted((s0, z0, i) for i, (s0, z0) in snap.items())
+            for (a0, z0, i0), (a1, z1, i1) in zip(spans, spans[1:]):
+                if a0 + z0 > a1:
+                    out.append((idx, "gc:overlap-snap", f"id={i0} and id={i1}"))
+                    break
+    return out
+
+
+def oracle_c04(trace):
+    """objects of non-Default semantics, pinned objects, and every object of a non-moving plan keep
+    their reference; immortal-space objects (all objects under NoGC) still answer `ismo` after being
+    dropped. Returns [(pair index, key, what)]."""
+    out, last, fixed, pinned, moves, collects, space = [], {}, set(), set(), True, True, {}
+    for idx, (op, res) in enumerate(trace.pairs):
+        t, r = op.split(), res.split()
+        if not r:
+            continue
+        kv = dict(x.split("=", 1) for x in r if "=" in x)
+        k = t[0]
+        if k == "constraints":
+            moves, collects = kv.get("moves") == "1", kv.get("collects") == "1"
+        elif k in ("alloc", "alloco") and r[0].startswith("a="):
+            i = int(t[2])
+            last[i] = int(kv["r"], 16)
+            space[i] = kv["space"]
+            if t[7] != "Default" or not moves:
+                fixed.add(i)
+        elif k == "pin" and r[0] in ("true", "false"):
+            pinned.add(int(t[1]))
+        elif k == "unpin" and r[0] in ("true", "false"):
+            pinned.discard(int(t[1]))
+        elif k == "snap" and r[0] == "snap":
+            for e in (kv.get("objs", "").split(";") if kv.get("objs") else []):
+                f = e.split(":")
+                i, ref = int(f[0]), int(f[1], 16)
+                if (i in fixed or i in pinned) and i in last and last[i] != ref:
+                    out.append((idx, "gc:moved", f"id={i} {last[i]:#x} -> {ref:#x}"))
+                    break
+            for e in (kv.get("objs", "").split(";") if kv.get("objs") else []):
+                f = e.split(":")
+                last[int(f[0])] = int(f[1], 16)
+        elif k == "ismo" and t[1].startswith("0x"):
+            a = int(t[1], 16)
+            ids = [i for i, v in last.items() if v == a]
+            if ids and (not collects or space.get(ids[0]) in ("immortal", "code_space", "large_code_space", "ro_space", "vm_space")):
+                if r[0] != str(ids[0]):
+                    out.append((idx, "gc:immortal-died", f"id={ids[0]} at {a:#x}: {res}"))
+    return out
+
+
+def oracle_c09(trace):
+    """floor rule on the printed `stats` of a cycle program (see gen_cycles / GCRUN.md)"""
+    mode = (trace.program.mode or {}).get("c09")
+    if not mode:
+        return []
+    warm, slack = mode
+    out, floor, n, armed = [], 0, 0, False
+    for idx, (op, res) in enumerate(trace.pairs):
+        t = op.split()
+        if t[0] == "gc" and t[-1] == "1" and res.startswith("ok"):
+            armed = True
+        elif t[0] in ("alloc", "root", "vmroot", "write"):
+            armed = False
+            if t[0] == "alloc" and res.startswith("null"):
+                out.append((idx, "gc:oom", res))
+        elif t[0] == "stats" and armed:
+            armed = False
+            used = int(re.search(r"used=(\d+)", res).group(1))
+            n += 1
+            if n <= warm:
+                floor = max(floor, used)
+            elif used > floor + slack:
+                out.append((idx, "gc:floor", f"cycle={n} used={used} floor={floor} slack={slack}"))
+    return out
+
+
 # ------------------------------------------------------------------------------------------------
 # plan facts (constraints / allocmap), asked once per (plan, fs)
 # ------------------------------------------------------------------------------------------------
@@ -542,11 +675,12 @@ BOUNDARY_SIZES = [32, 40, 48, 64, 72, 128, 248, 256, 264, 504, 512, 520, 1016, 1
 
 
 def legal_sems(plan, info, fs):
-    """semantics the random stream may use on this plan (avoids the KNOWN defects F-A / F-B / F-I)"""
+    """semantics the random stream may use on this plan (avoids the KNOWN defects F-A / F-B / F-I and
+    gc:markcompact-nonmoving-dead, gc:concimmix-nonmoving-not-reset)"""
     s = [x for x in ("Default", "Immortal", "Los") if x in info["allocmap"]]
     if "NonMoving" in info["allocmap"]:
         if fs == "fs_imm_nonmoving" or (fs in ("fs_main", "fs_plain", "fs_small") and
-                                        plan in ("Immix", "MarkCompact", "ConcurrentImmix", "NoGC")):
+                                        plan in ("Immix", "NoGC")):
             s.append("NonMoving")
     for x in ("Code", "ReadOnly", "LargeCode"):
         if x in info["allocmap"]:
@@ -699,7 +833,7 @@ def gen_mixed(rnd, plan, info, fs, heap, nops=300, workers=1):
         elif u < 0.82 and pool:
             a, b = r.choice(pool[-30:]), r.choice(pool[-30:])
             n = min(g.nf[a], g.nf[b])
-            if n and g.writable(b):
+            if n and g.writable(b) and plan != "ConcurrentImmix":     # SATB memory_region_copy panics (F-D family)
                 k = r.randrange(1, n + 1)
                 g.ops.append(f"copyrange {m} {a} {r.randrange(0, g.nf[a] - k + 1)} {b} {r.randrange(0, g.nf[b] - k + 1)} {k}")
         elif u < 0.86:
@@ -872,7 +1006,7 @@ def gen_immortal(rnd, plan, info, fs, heap, workers=1):
     return Program(plan, normalize(g.ops), heap=heap, workers=workers, fs=fs, tag="immortal")
 
 
-def gen_cycles(rnd, plan, info, fs, heap, cycles=12, workers=1, warm=3, slack=0):
+def gen_cycles(rnd, plan, info, fs, heap, cycles=12, workers=1, warm=3, slack=C09_SLACK):
     """C09: N cycles `allocate ~40% of the heap (collectable semantics only); drop every root but the
     anchor; gc exhaustive; stats`."""
     g = Gen(rnd, plan, info, fs, heap)
@@ -886,19 +1020,21 @@ def gen_cycles(rnd, plan, info, fs, heap, cycles=12, workers=1, warm=3, slack=0)
         target, got = int(heap * frac), 0
         mix = r.choice(["small", "medium", "mixed", "large"])
         prev = None
+        floor_sz = target // 1000          # at most ~1000 allocations per cycle (monitor cost is quadratic)
         while got < target:
             if mix == "small":
-                size = r.choice([64, 128, 256, 512, 1024])
+                size = r.choice([64, 128, 256, 512, 1024, 2048, 4096, 8000])
             elif mix == "medium":
                 size = r.choice([2048, 4096, 8000, 16000])
             elif mix == "large":
                 size = r.choice([30000, 70000, 200000, 262144])
             else:
                 size = r.choice([64, 256, 1024, 8000, 16000, 70000, 262144])
+            if size < floor_sz and r.random() < 0.8:
+                size = r.choice([floor_sz, 2 * floor_sz, 8000, 16000]) & ~7
             if plan == "PageProtect":
                 size = max(size, 8000)
-            size = min(size, max(64, target - got))
-            size = max(size, 4096 if got > target - 4096 else 32)
+            size = max(32, min(size, max(64, target - got)))
             sem = "Default" if r.random() < 0.9 else r.choice(sems)
             # keep ~half of the objects alive until the drop by chaining them from a root
             x = g.alloc(0, 1, size, sem, slot=r.randrange(0, 16))
@@ -1017,15 +1153,19 @@ def failure_keys(trace, keys=None):
     return ks
 
 
-def shrink(program, key, budget=60, runs=1):
-    """Delta-debug the op list: keep it well-formed (`normalize`) and the failure key stable."""
+def shrink(program, key, budget=60, runs=1, keep=3):
+    """Delta-debug the op list: keep it well-formed (`normalize`) and the failure key stable
+    (`key`: one key or a tuple of acceptable keys; `runs` > 1 for schedule-dependent failures)."""
+    keys = (key,) if isinstance(key, str) else tuple(key)
+    head = program.ops[:keep]          # the anchor allocation (keeps F-H out of the way) is never removed
+
     def fails(ops):
-        p = program.with_ops(normalize(ops, program.mutators))
+        p = program.with_ops(normalize(head + ops, program.mutators))
         for _ in range(runs):
             tr = run(p, timeout=120)
             monitor([tr])
-            if key in failure_keys(tr):
+            if set(keys) & set(failure_keys(tr)):
                 return True
         return False
-    case = E.shrink_case(E.Case(program.ops), lambda c: fails(c.ops), budget=budget)
-    return program.with_ops(normalize(case.ops, program.mutators))
+    case = E.shrink_case(E.Case(program.ops[keep:]), lambda c: fails(c.ops), budget=budget)
+    return program.with_ops(normalize(head + case.ops, program.mutators))
